@@ -28,7 +28,7 @@ TGrammar == /\ Ev.e = "Grammar"
                     ELSE g
             /\ UNCHANGED <<res, lat>>
 
-TSkip == Ev.e \in {"Start", "Feed", "End"} /\ UNCHANGED <<g, res, lat>>
+TSkip == Ev.e \in {"Start", "Feed", "End", "SynHist"} /\ UNCHANGED <<g, res, lat>>
 
 \* time-bearing segments of the first-best result, raw words
 TResult == /\ Ev.e = "Result"
